@@ -75,6 +75,13 @@ void gen_c18(Plan &p, Rng &r, bool thorough) {
   p.fine = true;
   p.world.mem_policy = (int)r.below(3);
   int ntasks = 2 + (int)r.below(3);
+  // now and then every caller does the same rare thing (chunk fitting in front of the longest instructions, gaps
+  // above 11 bytes): whatever the library sets up on first use of a path is then set up while others are on it
+  const bool all_fit_long = r.chance(1, 8);
+  std::vector<std::string> longs;
+  if (all_fit_long)
+    for (int len = 12; len <= 15; len++)
+      for (int idx : corpus_by_len(len)) longs.push_back(ltext(idx));
   for (int ti = 0; ti < ntasks; ti++) {
     Task t;
     int loops = 1 + (int)r.below(3);
@@ -98,13 +105,14 @@ void gen_c18(Plan &p, Rng &r, bool thorough) {
         }
       }
       unsigned mode = (unsigned)r.below(10);  // 0..4 plain, 5..7 fitting, 8..9 counting
+      if (all_fit_long && !longs.empty()) mode = 6;
       if (mode >= 5 && mode <= 7) {
         Op ch = mk(OP_CHUNK, 0);
-        ch.c = r.range(2, 40);
+        ch.c = all_fit_long ? r.range(14, 40) : r.range(2, 40);
         t.ops.push_back(ch);
       }
       int calls = 1 + (int)r.below(3);
-      bool execp = r.coin();
+      bool execp = r.coin() && !(all_fit_long && !longs.empty());
       for (int k = 0; k < calls; k++) {
         Op a = mk(mode >= 8 ? OP_COUNT : OP_ASM, 0);
         a.c = r.range(2, 32);
@@ -115,7 +123,8 @@ void gen_c18(Plan &p, Rng &r, bool thorough) {
         else if (execp)
           for (int q = 0; q < nl; q++) a.lines.push_back(ltext(r.pick(corpus_safe())));
         else
-          for (int q = 0; q < nl; q++) a.lines.push_back(r.chance(1, 10) ? ltext(r.pick(corpus_fillers())) : any_instr(r));
+          for (int q = 0; q < nl; q++)
+            a.lines.push_back(all_fit_long && !longs.empty() && r.coin() ? r.pick(longs) : r.chance(1, 10) ? ltext(r.pick(corpus_fillers())) : any_instr(r));
         if (!execp && r.chance(1, 15) && !corpus_rejects().empty()) {
           a.lines.insert(a.lines.begin() + (long)r.below(a.lines.size() + 1), ltext(r.pick(corpus_rejects())));
         }
